@@ -297,6 +297,8 @@ class RoundTrip(Suite):
                 t["r"] = [abs(vals[4 * i + 3]) for i in range(t["n"])]
             cm = [rng.choice(COMMENTS) for _ in range(rng.choice([0, 0, 1, 2, 4]))]
             case = {"class": f"{coords}/{t['class']}", "tree": t, "comments": cm,
+                    # the tree's own `source` attribute (what `source=True` writes; "" -> "Unknown"); derived from the case, not drawn
+                    "tree_source": ["", "cell 7.swc", "", "x"][(t["n"] + len(cm)) % 4],
                     "source": rng.choice([True, False, "my source"]), "with_comments": rng.random() < 0.85,
                     "offset": rng.choice([0, 1, 1, 7, 10**6, 2**24 - 2, 20000001, 123456789]),
                     "kind": kind or rng.choice(["text", "bytes", "path", "path-write"]),
@@ -441,12 +443,13 @@ class RoundTrip(Suite):
         from swcgeom.core import Tree
 
         tc = tree_of(case)
-        t = gen.make_tree(tc, comments=list(case["comments"]))
+        t = gen.make_tree(tc, comments=list(case["comments"]), source=case.get("tree_source", ""))
         if case.get("written_before", tc["n"] % 2 == 0):
             # the tree that is written is DERIVED from a tree that was written before (a copy whose columns are then replaced,
             # as every transform does): the text must be that of the tree being written
+            n0 = tc["n"]
             t0 = gen.make_tree(dict(tc, xyz=[[c + 3.25 for c in q] for q in tc["xyz"]], r=[v + 0.5 for v in tc["r"]],
-                                    types=[(v + 1) % 8 for v in tc["types"]]), comments=list(case["comments"]))
+                                    types=[(v + 1) % 8 for v in tc["types"]]), comments=list(case["comments"]), source=case.get("tree_source", ""))
             for off in {case["offset"], 0, 1}:
                 t0.to_swc(id_offset=off); t0.to_swc(source=case["source"], comments=case["with_comments"], id_offset=off)
             d = t0.copy()
